@@ -160,6 +160,14 @@ class Prop(PropBase):
                     q["time_at_dt"] = abs(float((tt - t).to_value(u.s)))
                 arr = p(Time([t, t]))
                 q["array_same"] = bool(np.all(arr == ph))
+                # the same instant expressed on other time scales
+                worst_ph, worst_f = 0.0, 0.0
+                for tt_ in (t.tai, t.tt):       # (not TDB: elapsed TDB differs physically from elapsed UTC)
+                    worst_ph = max(worst_ph, abs(float((p(tt_) - ph).value)))
+                    f_ref = float(p.f0(t).to_value(u.cycle / u.s))
+                    worst_f = max(worst_f, abs(float(p.f0(tt_).to_value(u.cycle / u.s)) - f_ref) / abs(f_ref))
+                    _, ref2 = p.phasepol(tt_)
+                q["scale_phase_err"], q["scale_f0_err"] = worst_ph, worst_f
             except Exception as e:
                 q["err"] = err_name(e)
             res.append(q)
@@ -402,6 +410,9 @@ class Prop(PropBase):
                 return f"time_at does not invert the prediction ({q['time_at_err_cycles']:.3g} cycles, {q['time_at_dt']:.3g} s)"
             if not q["array_same"]:
                 return "array-valued call differs from the scalar call"
+            if q.get("scale_phase_err", 0) > 1e-6 or q.get("scale_f0_err", 0) > 1e-9:
+                return (f"the same instant given on the TAI/TT scale predicts a phase {q['scale_phase_err']:.3g} cycles away "
+                        f"(f0 relative {q['scale_f0_err']:.3g}) from the UTC call")
         return None
 
     def classify(self, case, why):
